@@ -8,7 +8,7 @@
     returned, the final value observed, and -- for the watches -- exactly the (old, new)
     transitions that were notified.
 
-    Parameters: [apply f v] the update function ([None]: it throws), [valid] the validator
+    The parameters: [apply f v] the update function ([None]: it throws), [valid] the validator
     ([fun _ => true] when there is none), [same_value cur old] the test compare-and-set!
     prescribes ("old-val is the current value of the atom"). *)
 From Coq Require Import List Bool Arith.
